@@ -124,7 +124,7 @@ pub fn normalize(raw: &Case, opts: &NormOpts) -> Case {
         }
         for wk in ph.wakers.iter_mut() {
             for op in wk.iter_mut() {
-                if let WOp::Open { g } = op {
+                if let WOp::Open { g } | WOp::Rewake { g } = op {
                     if cfg.gates == 0 {
                         *op = WOp::Yield;
                     } else {
@@ -290,6 +290,13 @@ pub fn normalize(raw: &Case, opts: &NormOpts) -> Case {
                     Op::OpenGate { g } => {
                         if cfg.gates > 0 {
                             Op::OpenGate { g: sc(*g, cfg.gates as usize) }
+                        } else {
+                            Op::Nop
+                        }
+                    }
+                    Op::Rewake { g } => {
+                        if cfg.gates > 0 {
+                            Op::Rewake { g: sc(*g, cfg.gates as usize) }
                         } else {
                             Op::Nop
                         }
